@@ -29,7 +29,7 @@ MANIFEST = dict(
     note='Trusted: Coq kernel + vm_compute, translate/c19_walk.py (its canonicalisation rewrites are meant to be equivalences of Python programs; on every run the rewritten filesys.py is compiled, executed and compared with the real classes on every lookup form, walks and chains - obligations translate:canonical-form-runs / -is-equivalent), zipfile, the VPK writer of vpk.py (where the bytes are put; the reader is translated; VPK.fileinfos only through a shape check), which numbered archive file is opened (C13), the OS directory semantics (RawFileSystem: exact names via os.path.isfile/open/os.walk after abspath; RootEscapeError belongs to C18). Model restrictions: ASCII case folding only in the model (non-ASCII casefold is searched on the in-memory and zip backends; VPK names are ASCII); stored names are clean relative "/" paths; ".." segments are modelled (full posixpath.normpath) and compared by correspondence but the general noise theorem covers only empty and "." segments; the walk/composition theorems assume empty or clean prefixes and folders (other spellings: correspondence and oracle) - the chain lookup theorem has no such premise; absolute paths are outside the statement; reading a slice of the wrong home is modelled as returning nothing (such readers are never recognised as whole). Which of two stored names differing only in case wins depends on container order (c19_lookup_order_matters_for_case_duplicates); VPK regroups files, see known finding case-duplicate-winner-vpk-differs. Observations (not violations): RawFileSystem.open_bin of a directory raises IsADirectoryError where the others raise FileNotFoundError; File.path of a lookup differs per backend.',
 )
 
-IMPORTS = ['Coq.Lists.List', 'Coq.NArith.NArith', 'Coq.Bool.Bool', 'SV.SM.FsChain', 'SV.SM.FsChainForms', 'SV.SM.FsChainRead', 'SV.SM.FsChainAdd', 'SV.SM.FsChainNoise', 'SV.Gen.FsWalk_gen']
+IMPORTS = ['Coq.Lists.List', 'Coq.NArith.NArith', 'Coq.Bool.Bool', 'SV.SM.FsChain', 'SV.SM.FsChainForms', 'SV.SM.FsChainRead', 'SV.SM.FsChainAdd', 'SV.SM.FsChainNoise', 'SV.SM.FsChainProperty', 'SV.Gen.FsWalk_gen']
 PRE = '''Import ListNotations. Open Scope N_scope.
 Fixpoint l1_eqb (a b : list N) : bool := match a, b with [], [] => true | x :: a', y :: b' => (x =? y) && l1_eqb a' b' | _, _ => false end.
 Fixpoint l2_eqb (a b : list (list N)) : bool := match a, b with [], [] => true | x :: a', y :: b' => l1_eqb x y && l2_eqb a' b' | _, _ => false end.
@@ -71,6 +71,12 @@ Definition chain_obs (ms : list ((N * list file * str) * bool)) (qs folders : li
   ++ map (fun f => flat_map (fun x => [fst x; snd (snd x)]) (chain_walk_mode chain_dedup_mode chain_relmode chain_dedup_ops (ordered c chain_walk_forward) f)) folders
   ++ map (fun f => flat_map (fun x => [fst x; snd (snd x)]) (chain_walk_repeat chain_relmode (ordered c chain_walk_forward) f)) folders.
 '''
+
+TODAY_CFG = ('{| s_backends := cons virtual_cfg (cons zip_cfg (cons vpk_cfg nil)); '
+             's_contents := cons vpk_open_bin_content (cons vpk_open_str_content nil); s_reader := vpk_reader; '
+             's_raw_get := raw_get_ops; s_raw_exists := raw_exists_ops; s_raw_open := raw_open_ops; s_raw_walk := raw_walk_ops; '
+             's_raw_rel := raw_walk_relmode; s_guard := chain_add_guard; s_prio := chain_prio_action; s_plain := chain_plain_action; '
+             's_exists := chain_exists_mode; s_dedup := chain_dedup_mode; s_rel := chain_relmode; s_dedup_ops := chain_dedup_ops |}')
 
 INSTANCE_THEOREM = '''Import ListNotations.
 Definition gen_member (m : member) : Prop :=
@@ -247,7 +253,12 @@ Theorem today_raw_walk_lists_stored_names : forall fs folder e,
   In e (raw_walk_rel raw_walk_relmode raw_walk_ops fs folder) -> In e fs.
 Proof. intros fs folder e. apply c19_raw_walk_lists_stored_names. vm_compute. reflexivity. Qed.
 Print Assumptions today_raw_walk_lists_stored_names.
-'''
+(* the whole property at everything the translator read off today's source *)
+Definition today_cfg : source_cfg := TODAY_CFG.
+Theorem today_c19_property : property_holds today_cfg.
+Proof. apply c19_property. vm_compute. reflexivity. Qed.
+Print Assumptions today_c19_property.
+'''.replace('TODAY_CFG', TODAY_CFG)
 
 BACKENDS = ['virtual', 'zip', 'vpk', 'raw']
 FOLDERS = ['mat', 'materials', 'Materials', 'sub', 'Sub', 'a', 'A', 'deep', 'models', '.git', 'maps']
@@ -1749,7 +1760,7 @@ def run(ck: Ck) -> None:
         fut_thm = pool.submit(ck.theorems, 'Props/C19.v')      # Print Assumptions of every theorem (its obligations are moved to the front below)
         fut_compose = pool.submit(ck.coq_scratch, ''.join(f'Require Import {i}.\n' for i in IMPORTS + ['SV.SM.FsChainProofs', 'SV.SM.FsChainCompose', 'SV.SM.FsChainFormsProofs', 'SV.SM.FsChainWhole', 'SV.SM.FsChainAdd', 'SV.SM.FsChainWalkGen', 'SV.SM.FsChainNoise', 'SV.Props.C19'])
                                   + INSTANCE_THEOREM, 'inst_compose', 300)
-        fut_forms = pool.submit(ck.coq_scratch, ''.join(f'Require Import {i}.\n' for i in IMPORTS + ['SV.SM.FsChainProofs', 'SV.SM.FsChainCompose', 'SV.SM.FsChainFormsProofs', 'SV.SM.FsChainWhole', 'SV.SM.FsChainReadProofs', 'SV.SM.FsChainMixed', 'SV.SM.FsChainAdd', 'SV.Props.C19'])
+        fut_forms = pool.submit(ck.coq_scratch, ''.join(f'Require Import {i}.\n' for i in IMPORTS + ['SV.SM.FsChainProofs', 'SV.SM.FsChainCompose', 'SV.SM.FsChainFormsProofs', 'SV.SM.FsChainWhole', 'SV.SM.FsChainReadProofs', 'SV.SM.FsChainMixed', 'SV.SM.FsChainAdd', 'SV.SM.FsChainProperty', 'SV.Props.C19'])
                                 + INSTANCE_THEOREM_FORMS, 'inst_forms', 300)
         _tc = time.time()
         obs = {}
@@ -1773,6 +1784,7 @@ def run(ck: Ck) -> None:
         obs['chain_add_sys_mounts_every_member'] = 'guard_ok chain_add_guard'
         obs['chain_add_sys_history_in_priority_order'] = 'andb (guard_ok chain_add_guard) (actions_ok chain_prio_action chain_plain_action)'
         obs['raw_walk_lists_names_relative_to_root'] = 'raw_rel_ok raw_walk_relmode'
+        obs['property_hypotheses_hold_for_the_generated_configuration'] = f'source_ok {TODAY_CFG}'
         obs['chain_get_in_member_order'] = 'chain_get_forward'
         obs['chain_get_joins_prefix'] = 'match chain_get_join_ops with cons OSlash nil => true | _ => false end'
         obs['chain_walk_in_member_order'] = 'chain_walk_forward'
@@ -1805,7 +1817,7 @@ def run(ck: Ck) -> None:
             ck.obligation('instance-theorem:chain_exists_and_vpk_bytes', rc == 0,
                           'c19_chain_exists_agrees_backends at chain_exists_mode, c19_vpk_open_same_bytes at vpk_open_bin_content / '
                           'vpk_open_str_content, c19_chain_every_form_spec (every lookup form of a chain = the specification) over '
-                          'virtual_cfg / zip_cfg / vpk_cfg, c19_vpk_open_through_reader at vpk_reader, c19_chain_with_directory_members_spec at raw_get_ops, c19_chain_history_spec at chain_add_guard / chain_prio_action / chain_plain_action, c19_raw_walk_lists_stored_names at raw_walk_relmode' + ('' if rc == 0 else ': ' + out[-400:]))
+                          'virtual_cfg / zip_cfg / vpk_cfg, c19_vpk_open_through_reader at vpk_reader, c19_chain_with_directory_members_spec at raw_get_ops, c19_chain_history_spec at chain_add_guard / chain_prio_action / chain_plain_action, c19_raw_walk_lists_stored_names at raw_walk_relmode, c19_property at the whole generated configuration' + ('' if rc == 0 else ': ' + out[-400:]))
         import time as _t
         # the real backends / chains are run here (main thread, guarded); the model's answers are computed by coqc
         # processes on their own pool while the canonical-form validation and the search go on
@@ -1877,6 +1889,9 @@ def run(ck: Ck) -> None:
         ck.explain('correspondence:backends')
     if 'chain_disagreement' in ck.extra and any_key('chain-'):
         ck.explain('correspondence:chain')
+    if keys:
+        # the conjunction of all recognisers: any concrete violation concerns one of its conjuncts
+        ck.explain('instance:property_hypotheses_hold_for_the_generated_configuration')
     if any_key('hang-', 'exception-'):
         # the implementation hangs or throws on a concrete input: that input explains whatever else broke
         ck.explain('translate:')
